@@ -9,7 +9,9 @@ CONSTANTS
   MaxSaves = 2
   MaxEvents = 1
   Dev <- NoDev
+  Pairs2 = TRUE
 INVARIANT TypeOK
 INVARIANT PendingExact
 INVARIANT AfterAck
+INVARIANT ViewIsTor
 INVARIANT Tracked
